@@ -26,7 +26,6 @@ import (
 	_ "crypto/sha512" // For registration side-effect
 	"errors"
 	"fmt"
-	"log"
 	"math/big"
 
 	"github.com/google/certificate-transparency-go/asn1"
@@ -88,14 +87,14 @@ func VerifySignature(pubKey crypto.PublicKey, data []byte, sig DigitallySigned) 
 		if err != nil {
 			return fmt.Errorf("failed to unmarshal DSA signature: %v", err)
 		}
-		if len(rest) != 0 {
-			log.Printf("Garbage following signature %q", rest)
-		}
 		if dsaSig.R.Sign() <= 0 || dsaSig.S.Sign() <= 0 {
 			return errors.New("DSA signature contained zero or negative values")
 		}
 		if !dsa.Verify(dsaKey, hash, dsaSig.R, dsaSig.S) {
 			return errors.New("failed to verify DSA signature")
+		}
+		if len(rest) != 0 {
+			return fmt.Errorf("trailing data (%d bytes) after DSA signature", len(rest))
 		}
 	case ECDSA:
 		ecdsaKey, ok := pubKey.(*ecdsa.PublicKey)
@@ -107,15 +106,15 @@ func VerifySignature(pubKey crypto.PublicKey, data []byte, sig DigitallySigned) 
 		if err != nil {
 			return fmt.Errorf("failed to unmarshal ECDSA signature: %v", err)
 		}
-		if len(rest) != 0 {
-			log.Printf("Garbage following signature %q", rest)
-		}
 		if ecdsaSig.R.Sign() <= 0 || ecdsaSig.S.Sign() <= 0 {
 			return errors.New("ECDSA signature contained zero or negative values")
 		}
 
 		if !ecdsa.Verify(ecdsaKey, hash, ecdsaSig.R, ecdsaSig.S) {
 			return errors.New("failed to verify ECDSA signature")
+		}
+		if len(rest) != 0 {
+			return fmt.Errorf("trailing data (%d bytes) after ECDSA signature", len(rest))
 		}
 	default:
 		return fmt.Errorf("unsupported Algorithm.Signature in signature: %v", sig.Algorithm.Hash)
